@@ -111,6 +111,7 @@ func minOf(q ssa.Value) (a, m ssa.Value, ok bool) {
 }
 
 func runC09(c *Ctx) {
+	slowPathStateFresh(c, "S1-per-packet-state")
 	v := c.View(spT + ".prepareSCMP")
 	if v == nil {
 		return
